@@ -7,6 +7,7 @@ import PyttbModel.Ops.IndexRun
 import PyttbModel.Spec.MutArray
 import PyttbModel.Lemmas.Arr
 import PyttbModel.Lemmas.ShapeOps
+import PyttbModel.Lemmas.ConvertSparse
 namespace Pyttb
 
 variable {α : Type}
@@ -443,5 +444,54 @@ theorem resolveWrite_inBounds {s : List Nat} {key : Key} {rhs : Rhs α} {s' : Li
       · cases h
         intro p hp
         exact linTargets_inBounds ht p.1 (mem_zip_fst hp)
+
+/-! ### what a cell holds after a list of assignments -/
+
+theorem kvLast_cons [Zero α] (p : List Nat × α) (l : List (List Nat × α)) (i : List Nat) :
+    kvLast (p :: l) i = if i ∈ l.map (·.1) then kvLast l i else if p.1 = i then p.2 else 0 := by
+  unfold kvLast
+  rw [List.reverse_cons, List.find?_append]
+  by_cases h : i ∈ l.map (·.1)
+  · obtain ⟨q, hq, rfl⟩ := List.mem_map.1 h
+    have : (l.reverse.find? (fun e => e.1 == q.1)).isSome := by
+      rw [List.find?_isSome]
+      exact ⟨q, List.mem_reverse.2 hq, by simp⟩
+    obtain ⟨r, hr⟩ := Option.isSome_iff_exists.1 this
+    simp [hr, h]
+  · have : l.reverse.find? (fun e => e.1 == i) = none := by
+      rw [List.find?_eq_none]
+      intro e he hei
+      simp only [beq_iff_eq] at hei
+      exact h (List.mem_map.2 ⟨e, List.mem_reverse.1 he, hei⟩)
+    simp only [this, Option.none_or, h, ↓reduceIte, List.find?_cons, List.find?_nil]
+    by_cases hp : p.1 = i
+    · simp [hp]
+    · have : (p.1 == i) = false := by simpa using hp
+      simp [hp, this]
+
+/-- After assigning a list of cells, an addressed cell holds the LAST value assigned to it
+and every other cell is unchanged. -/
+theorem MArr.assignAll_get [Zero α] (m : MArr α) (l : List (List Nat × α)) (i : List Nat)
+    (hi : InBounds m.shape i) :
+    (m.assignAll l).get i = if i ∈ l.map (·.1) then kvLast l i else m.get i := by
+  induction l generalizing m with
+  | nil => simp [MArr.assignAll]
+  | cons p l ih =>
+    have : (m.assignAll (p :: l)) = (m.assign p.1 p.2).assignAll l := rfl
+    rw [this, ih (m.assign p.1 p.2) hi, MArr.assign_get m p.1 p.2 i hi, kvLast_cons]
+    by_cases h1 : i ∈ l.map (·.1)
+    · simp [h1]
+    · by_cases h2 : i = p.1
+      · subst h2; simp [h1]
+      · have h3 : ¬ p.1 = i := fun h => h2 h.symm
+        simp [h1, h2, h3]
+
+/-- Cells of the enlarged array: an old cell keeps its value (under the subscript padded
+with zeros), every new cell is zero. -/
+theorem MArr.grow_get [Zero α] (m : MArr α) (s' : List Nat) (j : List Nat) (hj : InBounds s' j) :
+    (m.grow s').get j =
+      if (j.drop m.shape.length).all (· == 0) then m.get (j.take m.shape.length) else 0 := by
+  rw [MArr.get_of_inBounds _ (by exact hj)]
+  rfl
 
 end Pyttb
